@@ -52,6 +52,17 @@ def gen(rng, n):
             argv.append(rng.choice(['-v', '-vv']))
         if rng.random() < 0.2 and ents:
             argv += ['--trash-dir', rng.choice(ents)['td']]
+        elif rng.random() < 0.15:
+            # a trash directory whose files/ (or info/) is a symbolic link to a directory elsewhere (the payloads kept on a bigger disk):
+            # what a dry run announces there is what the real run removes there
+            which = rng.choice(['files', 'info'])
+            nodes += [['d', '/altd/' + ('info' if which == 'files' else 'files'), 0o700], ['d', '/altd_' + which, 0o700], ['l', '/altd/' + which, '/altd_' + which]]
+            for k in range(rng.randint(1, 3)):
+                nodes += [['f', ('/altd/info' if which == 'files' else '/altd_info') + '/k%d.trashinfo' % k, scen.TI % ('/was/k%d' % k, rng.choice(scen.DATES))],
+                          ['f', ('/altd_files' if which == 'files' else '/altd/files') + '/k%d' % k, 'kept elsewhere']]
+            if rng.random() < 0.5:
+                nodes.append(['f', ('/altd_files' if which == 'files' else '/altd/files') + '/orphan', 'no info'])
+            argv += ['--trash-dir', '/altd']
         base = {'cmd': 'empty', 'env': env, 'now': [2024, 6, 1, 12, 0, 0, 0], 'listdir': rng.choice(['sorted', 'reverse', rng.randint(1, 99)])}
         reply = None
         if mode == 'dry':
@@ -65,6 +76,8 @@ def gen(rng, n):
         elif mode == 'tty':
             reply = rng.choice(REPLIES)
             steps = [dict(base, argv=argv, stdin=reply, tty=True)]
+            if rng.random() < 0.5:
+                steps[0]['env'] = dict(env, TERM=rng.choice(['dumb', 'dumb', 'xterm', '', 'linux']))    # a terminal is a terminal, whatever $TERM says
         else:
             steps = [dict(base, argv=argv)]
         scns.append(lay.scenario(steps, extra=nodes))
